@@ -17,7 +17,7 @@ from leanio import enc_str, enc_list, dec_str
 from main import Result
 
 META = "<>\"'&"
-PAYLOADS = ['"><script>alert(1)</script>', "'><img src=x onerror=y>", "a<b>c", 'x" onmouseover="y', "&lt;already&gt;",
+PAYLOADS = ["note\r+ADMIN:\r Admin: Mallory", "lone\rcr", '"><script>alert(1)</script>', "'><img src=x onerror=y>", "a<b>c", 'x" onmouseover="y', "&lt;already&gt;",
             "a&b", "]]><![CDATA[", "</TT></A><A HREF=\"http://evil/\">", "--><!--", "<?php ?>", "q'q\"q", "\r\n+INFO: fake",
             "$(sr0)", "</p></card>", "tab\tbed", "<", ">", '"', "'", "&", "plain",
             "Harmless page\n+FORGED: 1\n+ADMIN:\n Admin: Mallory", "two\nlines", "cr\rmid", "x\r\n+VIEWS:\r\n text/evil: <9k>"]
@@ -88,6 +88,9 @@ def run(ctx):
                 "desc": (f"0{f}\t/nofile\n", f"0{t}\t/nofile\n"),
                 "sel": (f"0name\t/{f}\n", f"0name\t/{t}\n"),
                 "urlsel": (f"hname\tURL:http://h/{f}\n", f"hname\tURL:http://h/{t}\n"),
+                # a URL: selector whose target is site-relative ('/...') or scheme-relative ('//...')
+                "urlrel": (f"hname\tURL:/find?q={f}\n", f"hname\tURL:/find?q={t}\n"),
+                "urlrel2": (f"hname\tURL://other.example/{f}\n", f"hname\tURL://other.example/{t}\n"),
                 "host": (f"1name\t/x\th{f}\t70\n", f"1name\t/x\th{t}\t70\n"),
                 "search": (f"7{f}\t/s{f}\n", f"7{t}\t/s{t}\n"),
                 "info": (f"{f}\n", f"{t}\n"),
@@ -313,6 +316,10 @@ def _check_blocks(res, rows, inp, rp):
     for ln in rows.split(b"\r\n"):
         if ln == b"":
             continue
+        if b"\r" in ln or b"\n" in ln:
+            # a client that takes a bare CR (or LF) for a line end sees what follows as a line of its own
+            res.violation("C13:gplus-line-break-inside-line", "a Gopher+ line holds a bare CR or LF (what follows it can pass for a block header)", inp,
+                          observed=ln[:120], required="one CR LF per line, none inside", replay=rp)
         if ln.startswith(b"+"):
             m = re.match(rb"\+([A-Z0-9]+):", ln)
             if not m:
